@@ -881,7 +881,7 @@ def run(ctx):
         for pstyle in V6_STYLES:
             for mac in (0, M48, 1 << 41, 0x00163e334455, 0xabcdef012345):
                 emit(dict(kind='eui', addr=0x20010db8000a000b << 64, plen=64, pstyle=pstyle, mac=mac, mstyle=mstyle))
-    for rng, span in blocks('eui', ctx.pick(20000, 400000)):
+    for rng, span in blocks('eui', ctx.pick(20000, 1600000)):
         for i in span:
             addr, plen = random_prefix(rng, i)
             mac = random_mac(rng)
@@ -958,7 +958,7 @@ def run(ctx):
             emit(dict(kind='hp', host=host, family=fam, port=port, bracket='escape',
                       dmode='kw' if port % 2 else 'omit', default=4321 if port % 2 else None))
     fams = ['name', 'ipv4', 'ipv6', 'ipv6-scoped']
-    for rh, span in blocks('hostport', ctx.pick(24000, 480000)):
+    for rh, span in blocks('hostport', ctx.pick(24000, 1900000)):
         for i in span:
             fam = fams[i % 4]
             host = random_host(rh, fam)
@@ -991,7 +991,7 @@ def run(ctx):
         for af in (True, False):
             emit(dict(kind='url', scheme='', netloc=None, path=u, query=None, frag=None, pairs=None,
                       allow_fragments=af, default_scheme=None, wellformed=False), 'url/ill-formed')
-    for ru, span in blocks('urls', ctx.pick(90000, 1800000)):
+    for ru, span in blocks('urls', ctx.pick(90000, 6000000)):
         for i in span:
             take(random_url_case(ru, i), 'url/random')
 
